@@ -130,6 +130,46 @@ func isFreshValue1(c *freshCtx, v ssa.Value, seen map[ssa.Value]bool) bool {
 	return false
 }
 
+// freshViaField: the traced storage is reached by loading a reference (map, slice, pointer) from a field
+// of an object allocated in this function, and every store this function makes to that field stores a
+// fresh value (mod := &Module{Members: make(...)}; mod.Members[k] = v).
+func freshViaField(fc *freshCtx, fn *ssa.Function, tr *trace) bool {
+	if len(tr.bases) == 0 || len(tr.fields) == 0 {
+		return false
+	}
+	outer := tr.fields[len(tr.fields)-1] // field of the base object
+	for _, b := range tr.bases {
+		al, ok := b.v.(*ssa.Alloc)
+		if !ok || isVarCell(al) || !isFreshValue(fc, al) {
+			return false
+		}
+		stores := 0
+		okAll := true
+		eachInstr(fn, func(in ssa.Instruction) {
+			st, ok := in.(*ssa.Store)
+			if !ok {
+				return
+			}
+			fa, ok := st.Addr.(*ssa.FieldAddr)
+			if !ok || fa.X != ssa.Value(al) {
+				return
+			}
+			stt := deref(fa.X.Type()).Underlying().(*types.Struct)
+			if stt.Field(fa.Field) != outer {
+				return
+			}
+			stores++
+			if !isFreshValue(fc, st.Val) {
+				okAll = false
+			}
+		})
+		if stores == 0 || !okAll {
+			return false
+		}
+	}
+	return true
+}
+
 type freshCtx struct {
 	returnsFresh map[*ssa.Function]bool
 }
@@ -310,6 +350,10 @@ func classifyW1(p *Prog, fc *freshCtx, s *w1Site) {
 	}
 	if fresh {
 		s.class, s.reason = "G0", "object allocated in this function"
+		return
+	}
+	if freshViaField(fc, fn, s.tr) {
+		s.class, s.reason = "G0", "storage created in this function and held in a field of an object created in this function"
 		return
 	}
 
